@@ -223,6 +223,14 @@ func fixup(t *rapid.T, s *wset) {
 			s.label("compression_params::level", "compression")
 		}
 	case "processors/memory_limiter", "extensions/memory_limiter":
+		// the soft-limited GC interval must not be below the hard-limited one (default 0s)
+		if soft, hard := "min_gc_interval_when_soft_limited", "min_gc_interval_when_hard_limited"; s.has(soft) && s.has(hard) {
+			if s.val(soft) == "0s" {
+				s.set(hard, vDur(0), "")
+			}
+			s.label(soft, "gc-intervals")
+			s.label(hard, "gc-intervals")
+		}
 		if !s.has("check_interval") {
 			s.put(t, "check_interval", "")
 		}
